@@ -22,7 +22,7 @@ ASSUMPTIONS = ['flow sizes are multiples of the MSS (512)', 'completion is deman
                'every transmission']
 PROBES = ['sub_blackhole', 'second_connection', 'deadline_after_last_segment', 'synchronous_path', 'real_path', 'tail_drop_on_path', 'sub_sink', 'sub_e2e', 'sub_clean', 'rto_fired', 'fast_retransmit', 'ack_lost', 'data_lost', 'duplicate_delivered',
           'overtaken', 'cc_cubic', 'completed', 'inconclusive', 'first_segment_missing', 'sink_duplicate', 'sink_gap',
-          'clean_precondition_held', 'flow_without_a_full_segment', 'flow_without_finish_time', 'sink_recording_options', 'application_chunks_not_in_mss_units']
+          'clean_precondition_held', 'flow_without_a_full_segment', 'flow_without_finish_time', 'sink_recording_options', 'application_chunks_not_in_mss_units', 'flow_object_used_by_an_earlier_run']
 
 
 def gen(rng, tier):
@@ -89,6 +89,8 @@ def gen(rng, tier):
         # the sink's recording switches (what it keeps for statistics, whether it narrates) must not touch the protocol
         case['sink_opts'] = [rng.random() < 0.5, rng.random() < 0.5, rng.random() < 0.5, rng.random() < 0.7,
                              rng.random() < 0.5]
+    if rng.random() < 0.08 and not case.get('deadline'):
+        case['reuse_flow'] = True
     if rng.random() < 0.12:
         # the application hands its data over in chunks of its own size (Flow.size_dist), not in MSS units
         case['chunk'] = rng.choice([100, 200, 700, 1000, 1500, 512, 1024, 4000])
@@ -383,7 +385,20 @@ def run(case):
             if first:
                 case = dict(case)
                 case['finish'] = first[0] + case['deadline']
+        if case.get('reuse_flow'):
+            # the same Flow object described an earlier, quicker transfer in this interpreter (a loss-free run over a
+            # short path): nothing of that run may stick to it
+            from .. import tcp as _tcp
+            _tcp._HELD.clear()
+            pre = dict(case)
+            pre.update({'sub': 'clean', 'faults_data': {}, 'faults_ack': {}, 'd_data': 0.001, 'd_ack': 0.001})
+            for k_ in ('path', 'sync_path', 'second_conn', 'deadline', 'finish'):
+                pre.pop(k_, None)
+            run_e2e(NetWorld(), pre)
         viol, stats, nt = run_e2e(w, case)
+        if case.get('reuse_flow'):
+            stats['flow_object_used_by_an_earlier_run'] = 1
+            _tcp._HELD.clear()
         if 'finish' in case:
             stats['deadline_after_last_segment'] = 1
     for r in w.log:
